@@ -151,10 +151,12 @@ Ltac zb :=
             | replace (Z.eqb a b) with false by (symmetry; apply Z.eqb_neq; lia) ]
   end.
 Ltac ena a :=
-  solve [ left; exists a; eexists; split;
+  solve [ left; exists a; split;
           [ cbn; zb; reflexivity
-          | unfold trans, allowed; unf_helpers; unfold ret_ok, susp_ok, raise_ok; cbn; zb; cbn; reflexivity ] ].
+          | unfold trans, allowed; unf_helpers; unfold ret_ok, susp_ok, raise_ok; cbn; zb; cbn; discriminate ] ].
 
+(* labels whose guards involve no integer comparison: decided by the VM (robust at Qed) *)
+Ltac enav a := solve [ left; exists a; split; [ reflexivity | vm_compute; discriminate ] ].
 Ltac rd b qq :=
   first [ ena (ARxIter (RxRaise b CbNone)) | ena (ARxIter (RxRaise b CbRet))
         | ena (ARxIter (RxRet (b - 13) qq)) | ena (ARxIter (RxRet 0 qq)) | ena (ARxIter (RxRet (Z.max 0 (b - 100)) qq))
@@ -219,7 +221,7 @@ Definition rest_idle (x : g) : Prop :=
   old_creq x = 0%nat /\ rx x = RNone /\ cons x = CWait /\ q x = 0.
 
 Theorem enabled_or_rest x : hold_lock_ok x -> NA x -> NB x -> I2 x -> st x <> Closed ->
-  (exists a y, qstep x a = true /\ T x a = Some y) \/ rest_connected x \/ rest_idle x.
+  (exists a, qstep x a = true /\ T x a <> None) \/ rest_connected x \/ rest_idle x.
 Proof.
   unfold hold_lock_ok, NA, NB, I2, reconnect_pending, rest_connected, rest_idle, unreadable, rx_reading, hold_late.
   intros HL (A1 & A2 & A3 & A4) (B1 & B2 & B3) J Hst. destruct x; cbn in *.
@@ -230,22 +232,22 @@ Proof.
     destruct st; try congruence; destruct rexc; destruct eof; destruct k;
       destruct (Z_lt_le_dec buf 13); destruct (Z_lt_le_dec 0 buf); rd buf q. }
   all: destruct cons; try congruence.
-  all: try (destruct A2 as [_ A2]; [reflexivity|]; ena (AConsGot RcRet)).
+  all: try (destruct A2 as [_ A2]; [reflexivity|]; destruct q; try lia; enav (AConsGot RcRet)).
   all: (destruct pending_connects as [|n];
         [ | destruct st; try congruence; destruct hold; cbn in HL; subst lock;
-            first [ena (AConnEntry true) | ena (AConnEntry false)] ]).
+            first [enav (AConnEntry true) | enav (AConnEntry false)] ]).
   all: destruct hold; cbn in HL; subst lock.
   all: try (destruct st; try congruence;
-            first [ena (AImplOk CbNone) | ena (AImplOk CbRet) | ena ABackoffDone | ena AConnCbDone | ena ACancelWaitDone]).
-  all: (destruct send_cb; [| ena ASendCbDone]).
-  all: (destruct old_creq; [| ena AOldRxCancelled]).
+            first [enav (AImplOk CbNone) | enav (AImplOk CbRet) | enav ABackoffDone | enav AConnCbDone | enav ACancelWaitDone]).
+  all: (destruct send_cb; [| enav ASendCbDone]).
+  all: (destruct old_creq; [| enav AOldRxCancelled]).
   all: (destruct rx_creq; [specialize (B1c eq_refl); discriminate|]).
-  all: try ena ARxStart.
-  all: try ena ARxCbDone.
-  all: try ena AConsStart.
-  all: try ena AConsCbDone.
-  all: try (destruct st; try congruence; first [ena (ARxSleepDone CbNone) | ena (ARxSleepDone CbRet)]).
-  all: (destruct (Z_lt_le_dec 0 q); [ena (AConsGot RcRet)|]).
+  all: try enav ARxStart.
+  all: try enav ARxCbDone.
+  all: try enav AConsStart.
+  all: try enav AConsCbDone.
+  all: try (destruct st; try congruence; first [enav (ARxSleepDone CbNone) | enav (ARxSleepDone CbRet)]).
+  all: (destruct (Z_lt_le_dec 0 q); [destruct q; try lia; enav (AConsGot RcRet)|]).
   all: assert (q = 0) by lia; subst q.
   all: destruct st; try congruence.
   all: try (specialize (B3 eq_refl eq_refl); discriminate).
@@ -277,8 +279,8 @@ Qed.
 Theorem no_deadlock x : reach x -> st x <> Closed -> stuck_quiet x -> rest_connected x \/ rest_idle x.
 Proof.
   intros H C S. pose proof (RNA x H) as A. pose proof (RNB x H) as ((A0 & _) & B). pose proof (R2 k x H) as (_ & J).
-  destruct (enabled_or_rest x A0 A B J C) as [(a & y & Q & E)|D]; [|exact D].
-  rewrite (S a Q) in E. discriminate.
+  destruct (enabled_or_rest x A0 A B J C) as [(a & Q & E)|D]; [|exact D].
+  exfalso. apply E. apply S. exact Q.
 Qed.
 
 (* the converse: at rest, no quiet step is enabled *)
@@ -287,10 +289,11 @@ Proof.
   unfold rest_connected, unreadable, stuck_quiet, qstep, realistic.
   intros (E1 & E2 & E3 & E4 & E5 & E6 & E7 & E8 & (E9 & E10 & E11) & E12 & E13 & E14) a Q.
   destruct x; cbn in *; subst. destruct a; try discriminate Q.
-  all: unfold trans; destruct (negb (allowed _ _)); [reflexivity|]; unf_helpers; unfold ret_ok, susp_ok, raise_ok; cbn; try reflexivity.
-  - (* ARxIter *) destruct o as [b q'| |b|b c]; try discriminate Q; cbn; destruct k; cbn;
-      try destruct (Z.leb_spec 0 b); zb; cbn; rewrite ?andb_false_r; reflexivity.
-  - (* AConsGot *) zb. reflexivity.
+  all: try solve [vm_compute; reflexivity].
+  all: try match goal with o : rxout |- _ => destruct o; try discriminate Q end.
+  all: unfold trans, allowed; unf_helpers; unfold ret_ok, susp_ok, raise_ok; cbn.
+  all: destruct k; cbn; repeat match goal with |- context[Z.leb 0 ?b] => destruct (Z.leb_spec 0 b) end;
+       zb; cbn; rewrite ?andb_false_r; try reflexivity.
 Qed.
 
 (* ---------------- quiet runs ---------------- *)
@@ -315,6 +318,9 @@ Proof.
   - destruct (qstep x a) eqn:Q; [|discriminate]. destruct (T x a) as [z|] eqn:E; [|discriminate].
     pose proof (lmu_step x a z Q E). specialize (IH z y H). lia.
 Qed.
+
+Corollary quiet_run_bounded x ls y : qrun x ls = Some y -> (length ls <= lmu x)%nat.
+Proof. intros H. pose proof (recovery_terminates ls x y H). lia. Qed.
 
 (* a connect() has been asked for at some point: a notification happened, or a connect() owns the lock, or one is scheduled *)
 Definition asked (x : g) : Prop := trace x <> [] \/ lock x = true \/ (0 < pending_connects x)%nat.
@@ -343,7 +349,7 @@ Proof.
   - destruct (qstep x a) eqn:Qa; [|discriminate]. destruct (T x a) as [z|] eqn:E; [|discriminate].
     pose proof (RNB x H) as ((A0 & _) & B).
     destruct (asked_step x a z A0 B C G Qa E) as [C' G'].
-    eapply IH; eauto. eapply reachable_step; eauto.
+    apply (IH z y); auto. exact (reachable_step _ _ _ _ _ _ _ _ H E).
 Qed.
 
 (* D. every maximal quiet run from a non-CLOSED state in which a connect() was asked for is finite (at most [lmu x] steps) and
@@ -370,14 +376,16 @@ End Live.
 (* ---------------- the label-only notion of "quiet" is too weak for the MODEL (over-approximations, see the header) ---------------- *)
 Definition rwait_state : list act := [AConsStart; AUserConnect; AConnEntry true; AImplOk CbRet; ARxStart; ARxIter RxSusp].
 
+Lemma run_repeat_fixpoint k fe fc fl fd s a : trans k fe fc fl fd s a = Some s ->
+  forall n, run k fe fc fl fd s (repeat a n) = Some s.
+Proof. intros E. induction n as [|n IH]; simpl; [reflexivity|]. now rewrite E. Qed.
+
 Example quiet_only_refuted_spurious_wakeup : exists s,
   run KEByte true true true true init rwait_state = Some s /\ quiet (ARxIter RxSusp) = true /\
   forall n, run KEByte true true true true s (repeat (ARxIter RxSusp) n) = Some s.
 Proof.
   eexists. split; [vm_compute; reflexivity|]. split; [reflexivity|].
-  induction n as [|n IH]; [reflexivity|]. simpl repeat. simpl run.
-  match goal with |- match ?t with _ => _ end = _ => let v := eval vm_compute in t in change t with v end.
-  exact IH.
+  apply run_repeat_fixpoint. vm_compute. reflexivity.
 Qed.
 
 Example quiet_only_refuted_unbounded_queue : exists s,
